@@ -17,7 +17,8 @@ Definition bs_set_buffering (v : bool) (bsk : bsock) : bsock := {| bw := v; queu
 (* operations of the layer above, in the order it performs them *)
 Inductive wop :=
 | WSend (data : list Z)        (* RecordSocket._sockSendAll(data) over the BufferedSocket *)
-| WFlush                       (* BufferedSocket.flush() *)
+| WFlush                       (* BufferedSocket.flush(): blocking-socket API (socket.sendall) *)
+| WFlushA                      (* for r in BufferedSocket.flush_async(): yield r  (generator API) *)
 | WBuffer (on : bool).         (* sock.buffer_writes = on *)
 
 (* BufferedSocket.flush(): join the queue, clear it, socket.sendall(buf) if non-empty *)
@@ -27,6 +28,31 @@ Definition bs_flush (bsk : bsock) (wire : list Z) (s : list sev)
   let bsk' := {| bw := bw bsk; queue := [] |} in
   if zlen buf =? 0 then (Done tt, bsk', wire, s)
   else let '(o, wire', s') := sock_sendall buf wire s in (o, bsk', wire', s').
+
+(* BufferedSocket.flush_async(): join the queue, clear it, then
+     while buf: try: sent = socket.send(buf)
+                except would-block: yield 1; continue   (other errors propagate)
+                buf = buf[sent:]; if buf: yield 1
+   [flush_loop] is the loop entered with a non-empty buf. *)
+Fixpoint flush_loop (buf : list Z) (y : Z) (wire : list Z) (s : list sev) : sres :=
+  match s with
+  | [] => (y, Pending, wire, [])
+  | SFail e :: s' =>
+      if is_wb e then flush_loop buf (y + 1) wire s'
+      else (y, Raised (SockError e), wire, s')
+  | Accept k :: s' =>
+      let n := accepted k buf in
+      let rest := skipn (Z.to_nat n) buf in
+      if zlen rest =? 0 then (y, Done tt, wire ++ firstn (Z.to_nat n) buf, s')
+      else flush_loop rest (y + 1) (wire ++ firstn (Z.to_nat n) buf) s'
+  end.
+
+Definition bs_flush_async (bsk : bsock) (wire : list Z) (s : list sev)
+  : Z * outcome unit * bsock * list Z * list sev :=
+  let buf := concat (queue bsk) in
+  let bsk' := {| bw := bw bsk; queue := [] |} in
+  if zlen buf =? 0 then (0, Done tt, bsk', wire, s)
+  else let '(y, o, wire', s') := flush_loop buf 0 wire s in (y, o, bsk', wire', s').
 
 (* _sockSendAll(data) with self.sock a BufferedSocket:
    buffering  -> send() appends and reports len(data): returns at once, no yield;
@@ -47,6 +73,11 @@ Fixpoint bs_run (ops : list wop) (y : Z) (bsk : bsock) (wire : list Z) (s : list
       | (Done _, bsk', wire', s') => bs_run ops' y bsk' wire' s'
       | (o, bsk', wire', s') => (y, o, bsk', wire', s')
       end
+  | WFlushA :: ops' =>
+      match bs_flush_async bsk wire s with
+      | (y1, Done _, bsk', wire', s') => bs_run ops' (y + y1) bsk' wire' s'
+      | (y1, o, bsk', wire', s') => (y + y1, o, bsk', wire', s')
+      end
   | WSend d :: ops' =>
       match bs_send_all d bsk wire s with
       | (y1, Done _, bsk', wire', s') => bs_run ops' (y + y1) bsk' wire' s'
@@ -58,6 +89,12 @@ Fixpoint bs_run (ops : list wop) (y : Z) (bsk : bsock) (wire : list Z) (s : list
 Definition sent_data (ops : list wop) : list Z :=
   concat (map (fun o => match o with WSend d => d | _ => [] end) ops).
 
-(* the pattern used by tlslite: buffer_writes = True; sends...; flush(); buffer_writes = False *)
+(* the pattern used by tlslite's generators:
+     buffer_writes = True; sends...; for r in flush_async(): yield r; buffer_writes = False *)
+Definition flight_a (msgs : list (list Z)) : list wop :=
+  WBuffer true :: map WSend msgs ++ [WFlushA; WBuffer false].
+(* the same with the blocking-socket flush() (no longer used by any generator) *)
 Definition flight (msgs : list (list Z)) : list wop :=
   WBuffer true :: map WSend msgs ++ [WFlush; WBuffer false].
+Definition no_sync_flush (ops : list wop) : bool :=
+  forallb (fun o => match o with WFlush => false | _ => true end) ops.
